@@ -234,3 +234,266 @@ def check_intdiv(ctx):
             return m if -0x8000 <= q <= 0x7fff else 'err %d' % error.OVERFLOW
         return m
     b.run(through_from_int)
+
+
+# =============================================================================================
+# second batch of translated functions
+
+# order of the flags in the reply to `TR supported2`
+FLAGS2 = ['inegCore', 'iaddCore', 'igtCore', 'kbRingIndex', 'kbLength', 'kbStart', 'kbStop', 'kbFull',
+          'cgaCoords', 'egaCoords', 'tandy6Coords', 'coordOk', 'vpWidthHeight', 'vpBounds', 'vpConvert',
+          'vpContains', 'vpMid', 'vpCutoff', 'scalarRecordSize', 'arrayRecordSize']
+
+
+def _supported2(ctx, names):
+    out = ctx.model(['supported2'], prefix=PREFIX)
+    if out is None:
+        return None
+    if not out[0].startswith('ok ') or len(out[0]) != 3 + len(FLAGS2):
+        ctx.disagree({'label': 'translated:supported2', 'line': 'supported2'}, 'ok <%d flags>' % len(FLAGS2), out[0])
+        return {}
+    flags = dict(zip(FLAGS2, (c == '1' for c in out[0][3:])))
+    for n in names:
+        ctx.count('translated:%s:%s' % (n, 'supported' if flags[n] else 'UNSUPPORTED'))
+        if not flags[n]:
+            ctx.notes.setdefault('translated_unsupported', []).append(n)
+    return flags
+
+
+def _guard(f):
+    """Reply of the real code as a string; a host exception is an observable reply."""
+    try:
+        return f()
+    except Exception as e:
+        return 'exc %s' % type(e).__name__
+
+
+# ---------------------------------------------------------------------------------------------
+# C02: Integer.ineg / iadd / gt on the two buffer bytes
+
+def check_intbytes(ctx):
+    from pcbasic.basic.values import values, numbers
+    from pcbasic.basic.base import error
+    flags = _supported2(ctx, ['inegCore', 'iaddCore', 'igtCore'])
+    if flags is None:
+        return
+    vs = values.Values(None, False)
+    vs.set_handler(values.FloatErrorHandler(None))
+    b = _Batch(ctx, 'translated-intbytes')
+    rng = b.rng
+
+    def integer(w):
+        return numbers.Integer(None, vs).from_bytes(struct.pack('<H', w))
+
+    def result(f):
+        try:
+            r = f()
+        except error.BASICError as e:
+            return 'ok %d' % -e.err
+        except Exception as e:
+            return 'exc %s' % type(e).__name__
+        if isinstance(r, bool):
+            return 'ok %d' % int(r)
+        if isinstance(r, numbers.Integer):
+            return 'ok %d' % struct.unpack('<H', bytes(r.to_bytes()))[0]
+        return 'ok %d' % int(bool(r))      # gt returns the truth value of `not(isneg)`
+
+    bv = sorted(set(((1 << k) + d) & 0xffff for k in range(17) for d in (-2, -1, 0, 1, 2))
+                | set((-(1 << k) + d) & 0xffff for k in range(17) for d in (-2, -1, 0, 1, 2))
+                | {0x00ff, 0x0100, 0x7f00, 0x7fff, 0x8000, 0x80ff, 0xff00, 0xffff, 0x1234, 0xedcb})
+    singles = bv + [rng.randrange(65536) for _ in range(600)]
+    pairs = [(x, y) for x in bv[::3] for y in bv[::3]] + [(rng.choice(bv), rng.choice(bv)) for _ in range(800)]
+    pairs += [(rng.randrange(65536), rng.randrange(65536)) for _ in range(1500)]
+    if flags.get('inegCore'):
+        for w in singles:
+            b.add('ineg', {'op': 'ineg', 'a': w}, result(lambda: integer(w).ineg()), 'ineg %d %d' % (w % 256, w // 256))
+    for op, meth, flag in (('iadd', 'iadd', 'iaddCore'), ('igt', 'gt', 'igtCore')):
+        if not flags.get(flag):
+            continue
+        for x, y in pairs:
+            b.add(op, {'op': op, 'a': x, 'b': y}, result(lambda: getattr(integer(x), meth)(integer(y))),
+                  '%s %d %d %d %d' % (op, x % 256, x // 256, y % 256, y // 256))
+    b.run()
+
+
+# ---------------------------------------------------------------------------------------------
+# C37: KeyboardBuffer ring arithmetic
+
+class _Sink(object):
+    def put(self, _):
+        pass
+
+
+class _Queues(object):
+    audio = _Sink()
+    video = _Sink()
+
+
+def check_keybuf(ctx):
+    from pcbasic.basic.inputs import keyboard
+    flags = _supported2(ctx, ['kbRingIndex', 'kbLength', 'kbStart', 'kbStop', 'kbFull'])
+    if flags is None:
+        return
+    b = _Batch(ctx, 'translated-keybuf')
+    rng = b.rng
+    states = []
+    for ring in (16, 16, 16, 1, 2, 5, 15, 17, 32):
+        for _ in range(60):
+            ln = rng.choice([ring, ring + 1, 2 * ring - 1, 2 * ring, 2 * ring + 1, rng.randrange(ring, 5 * ring + 3)])
+            start = rng.choice([0, 1, ln, max(0, ln - 1), max(0, ln - ring), max(0, ln - ring + 1), rng.randrange(0, ln + 1)])
+            states.append((ring, ln, start))
+    for ring, ln, start in states:
+        kb = keyboard.KeyboardBuffer(_Queues(), ring, True)
+        kb._buffer = [(b'%c' % (65 + i % 26), i) for i in range(ln)]
+        kb._start = start
+        case = {'ring': ring, 'len': ln, 'start': start}
+        if flags.get('kbLength'):
+            b.add('kblen', case, _guard(lambda: 'ok %d' % kb.length), 'kblen %d %d %d' % (ln, start, ring))
+        if flags.get('kbStart'):
+            b.add('kbstart', case, _guard(lambda: 'ok %d' % kb.start), 'kbstart %d %d' % (start, ring))
+        if flags.get('kbStop'):
+            b.add('kbstop', case, _guard(lambda: 'ok %d' % kb.stop), 'kbstop %d %d %d' % (ln, start, ring))
+        if flags.get('kbRingIndex'):
+            for index in (0, 1, ring - 1, ring, -1, rng.randrange(-2 * ring, 3 * ring)):
+                b.add('kbri', dict(case, index=index), _guard(lambda: 'ok %d' % kb._ring_index(index)),
+                      'kbri %d %d %d' % (ln, ring, index))
+        if flags.get('kbFull'):
+            # observable: with check_full a keystroke is appended exactly when the ring is not full
+            before = len(kb._buffer)
+            kb.append(b'x', 45)
+            b.add('kbfull', case, 'ok %d' % int(len(kb._buffer) == before), 'kbfull %d %d %d' % (ln, start, ring))
+    b.run()
+
+
+# ---------------------------------------------------------------------------------------------
+# C34: address -> (page, x, y) of the graphics memory mappers, _coord_ok
+
+def check_coords(ctx):
+    from pcbasic.basic.display import framebuffer
+    flags = _supported2(ctx, ['cgaCoords', 'egaCoords', 'tandy6Coords', 'coordOk'])
+    if flags is None:
+        return
+    b = _Batch(ctx, 'translated-coords')
+    rng = b.rng
+    # (pixel_height, pixel_width, video_mem_size, max_pages, interleave_times, bank_size, bitsperpixel):
+    # the parameter sets of modes.py and synthetic ones
+    real = {
+        'cga': [(200, 320, 16384, 1, 2, 0x2000, 2), (200, 640, 16384, 1, 2, 0x2000, 1), (200, 160, 16384, 1, 2, 0x2000, 4),
+                (200, 320, 32768, 2, 4, 0x2000, 4), (400, 640, 32768, 1, 4, 0x2000, 1), (348, 720, 65536, 2, 4, 0x2000, 1)],
+        'ega': [(200, 320, 262144, None, 1, 0x2000, 4), (200, 640, 262144, None, 1, 0x4000, 4),
+                (350, 640, 262144, None, 1, 0x8000, 4), (350, 640, 65536, None, 1, 0x8000, 2)],
+        'tandy6': [(200, 640, 32768, 4, 4, 0x2000, 2)],
+    }
+    classes = {'cga': framebuffer.CGAMemoryMapper, 'ega': framebuffer.EGAMemoryMapper,
+               'tandy6': framebuffer.Tandy6MemoryMapper}
+    for kind in ('cga', 'ega', 'tandy6'):
+        if not flags.get(kind + 'Coords'):
+            continue
+        params = list(real[kind])
+        for _ in range(12):
+            bpp = rng.choice([1, 2, 4, 8])
+            params.append((rng.randrange(1, 500), 8 * rng.randrange(1, 100), rng.choice([16384, 32768, 65536, 262144]),
+                           rng.choice([None, 1, 2, 4, 8]), rng.choice([1, 2, 4]), rng.choice([0x800, 0x2000, 0x4000, 5000]), bpp))
+        for prm in params:
+            mm = classes[kind](*prm)
+            seg = mm._video_segment * 16
+            addrs = [seg, seg + 1, seg - 1, seg + mm._page_size - 1, seg + mm._page_size, seg + mm._bank_size,
+                     seg + mm._bank_size - 1, seg + mm._bytes_per_row, seg + mm._bytes_per_row - 1, 0, 1, seg - mm._page_size,
+                     seg - mm._page_size - 1, 0xfffff, 0x100000]
+            addrs += [rng.randrange(0, 0x110000) for _ in range(25)]
+            addrs += [seg + rng.randrange(-70000, 300000) for _ in range(25)]
+            for a in addrs:
+                impl = _guard(lambda: 'ok %d,%d,%d' % tuple(mm._get_coords(a)))
+                if kind == 'cga':
+                    line = 'cga %d %d %d %d %d %d %d' % (a, mm._video_segment, mm._page_size, mm._bank_size,
+                                                        mm._bytes_per_row, mm._bitsperpixel, mm._interleave_times)
+                elif kind == 'ega':
+                    line = 'ega %d %d %d %d' % (a, mm._video_segment, mm._page_size, mm._bytes_per_row)
+                else:
+                    line = 'tandy6 %d %d %d %d %d' % (a, mm._video_segment, mm._page_size, mm._bank_size, mm._bytes_per_row)
+                b.add(kind + ':' + ('below' if a < seg else 'in'), {'mapper': kind, 'params': list(prm), 'addr': a}, impl, line)
+            if flags.get('coordOk'):
+                np_ = mm.num_pages
+                for _ in range(30):
+                    pg = rng.choice([-1, 0, 1, np_ - 1, np_, np_ + 1])
+                    x = rng.choice([-1, 0, mm._pixel_width - 1, mm._pixel_width, rng.randrange(-5, mm._pixel_width + 5)])
+                    y = rng.choice([-1, 0, mm._pixel_height - 1, mm._pixel_height, rng.randrange(-5, mm._pixel_height + 5)])
+                    b.add('cok', {'mapper': kind, 'params': list(prm), 'page': pg, 'x': x, 'y': y},
+                          _guard(lambda: 'ok %d' % int(bool(mm._coord_ok(pg, x, y)))),
+                          'cok %d %d %d %d %d %d' % (pg, x, y, np_, mm._pixel_width, mm._pixel_height))
+    b.run()
+
+
+# ---------------------------------------------------------------------------------------------
+# C30: GraphicsViewPort integer code
+
+class _Pix(object):
+    def __init__(self, w, h):
+        self.width, self.height = w, h
+
+
+def check_viewport(ctx):
+    from pcbasic.basic.display import graphics
+    names = ['vpWidthHeight', 'vpBounds', 'vpConvert', 'vpContains', 'vpMid', 'vpCutoff']
+    flags = _supported2(ctx, names)
+    if flags is None:
+        return
+    b = _Batch(ctx, 'translated-viewport')
+    rng = b.rng
+    for _ in range(250):
+        w, h = rng.choice([(320, 200), (640, 200), (640, 350), (720, 348), (160, 200), (1, 1), (2, 3)])
+        vp = graphics.GraphicsViewPort(_Pix(w, h))
+        mode = rng.random()
+        if mode < 0.2:
+            pass                            # unset viewport
+        else:
+            xs = [rng.choice([0, 1, w - 1, w // 2, rng.randrange(0, w)]) for _ in range(2)]
+            ys = [rng.choice([0, 1, h - 1, h // 2, rng.randrange(0, h)]) for _ in range(2)]
+            if mode > 0.9:                  # states the real VIEW never produces are still states of the code
+                xs = [rng.randrange(-50, w + 50) for _ in range(2)]
+                ys = [rng.randrange(-50, h + 50) for _ in range(2)]
+            vp.set(xs[0], ys[0], xs[1], ys[1], rng.random() < 0.5)
+        ab = int(bool(vp._absolute))
+        r = tuple(vp._rect)
+        st = '%d %d %d %d %d' % ((ab,) + r)
+        case = {'size': [w, h], 'absolute': ab, 'rect': list(r)}
+        if flags.get('vpWidthHeight'):
+            b.add('vpwh', case, _guard(lambda: 'ok %d,%d' % (vp.width, vp.height)), 'vpwh %d %d %d %d' % r)
+        if flags.get('vpBounds'):
+            b.add('vpbounds', case, _guard(lambda: 'ok %d,%d,%d,%d' % tuple(vp.get_bounds())), 'vpbounds ' + st)
+        if flags.get('vpMid'):
+            b.add('vpmid', case, _guard(lambda: 'ok %d,%d' % tuple(vp.get_mid())), 'vpmid ' + st)
+        pts = [(r[0], r[1]), (r[2], r[3]), (r[2] + 1, r[3]), (r[0] - 1, r[1]), (0, 0), (-1, -1), (w, h), (w - 1, h - 1),
+               (r[2] - r[0], r[3] - r[1]), (r[2] - r[0] + 1, r[3] - r[1] + 1), (-32768, 32767), (40000, -40000)]
+        pts += [(rng.randrange(-w - 5, 2 * w + 5), rng.randrange(-h - 5, 2 * h + 5)) for _ in range(6)]
+        for x, y in pts:
+            c2 = dict(case, x=x, y=y)
+            if flags.get('vpConvert'):
+                b.add('vpconv', c2, _guard(lambda: 'ok %d,%d' % tuple(vp._convert_coords(x, y))), 'vpconv %s %d %d' % (st, x, y))
+            if flags.get('vpContains'):
+                b.add('vpcontains', c2, _guard(lambda: 'ok %d' % int(bool(vp.contains(x, y)))), 'vpcontains %s %d %d' % (st, x, y))
+            if flags.get('vpCutoff'):
+                b.add('vpcut', c2, _guard(lambda: 'ok %d,%d' % tuple(vp.cutoff_coord(x, y))),
+                      'vpcut %s %d %d %d %d' % (st, w, h, x, y))
+    b.run()
+
+
+# ---------------------------------------------------------------------------------------------
+# C11: record sizes of scalars and arrays
+
+def check_recsize(ctx):
+    from pcbasic.basic.memory import scalars, arrays
+    flags = _supported2(ctx, ['scalarRecordSize', 'arrayRecordSize'])
+    if flags is None:
+        return
+    b = _Batch(ctx, 'translated-recsize')
+    rng = b.rng
+    for n in list(range(1, 45)) + [rng.randrange(1, 300) for _ in range(30)]:
+        name = b'A' * (n - 1) + rng.choice([b'%', b'!', b'#', b'$'])
+        if flags.get('scalarRecordSize'):
+            b.add('srec', {'name_len': n}, _guard(lambda: 'ok %d' % scalars.Scalars._record_size(name)), 'srec %d' % n)
+        if flags.get('arrayRecordSize'):
+            for d in (1, 2, 3, rng.randrange(1, 256)):
+                b.add('arec', {'name_len': n, 'ndims': d},
+                      _guard(lambda: 'ok %d' % arrays.Arrays._record_size(name, [1] * d)), 'arec %d %d' % (n, d))
+    b.run()
